@@ -1,4 +1,4 @@
-import PwVerif.Lemmas.Pool
+import PwVerif.Lemmas.PoolK
 /-!
 # C08 — Pool failure reports are sound
 
@@ -41,6 +41,68 @@ theorem C08_stops_only_when_idle_or_all_closed (s : St) (h : running s = false) 
   rcases h with h | h
   · left; simpa using h
   · right; intro x hx; simpa using h x hx
+
+/-- **C08 soundness of PoolError.** Whenever the run ends with `PoolError`, every worker of the pool has been
+    closed (declared dead): with one usable worker left the run cannot fail. Invariant `K` (Lemmas/PoolK.lean):
+    an idle usable worker exists only when the retry list is empty and the input has been found depleted. -/
+theorem C08_sound (c : Cfg) (hc : Plain c) (pick : List Nat → Option Nat) (hp : PickOK pick) (ht : PickTotal pick)
+    (n : Nat) (src : List Inp) (pre evs : List Ev) (part : List Inp)
+    (h : outcome (runEvents c pick (start c pick n src pre) evs) = .poolError part) :
+    ∀ x ∈ (runEvents c pick (start c pick n src pre) evs).ws, x.closed = true := by
+  have hinv := inv_runEvents hc hp evs _ (inv_start hc hp n src pre)
+  have hK := K_runEvents hc hp ht evs _ (K_start hc hp n src pre)
+  generalize runEvents c pick (start c pick n src pre) evs = s at h hinv hK
+  unfold outcome at h
+  split at h
+  · cases h
+  · split at h
+    · cases h
+    · rename_i hrun
+      split at h
+      · cases h
+      · rename_i hnot
+        -- not running: nothing pending, or everybody closed
+        have hstop := C08_stops_only_when_idle_or_all_closed s (by simpa using hrun)
+        rcases hstop with hpend | hall
+        · -- nothing pending: a worker that is not closed would be idle, hence the run would be quiet: it returns
+          intro x hx
+          cases hcl : x.closed with
+          | true => rfl
+          | false =>
+            exfalso
+            have hlen : ppwLen s = 0 := by
+              have := hinv.pending
+              rw [hpend] at this
+              omega
+            have hall : ∀ (l : List Worker), (l.map fun x => x.ppw.length).sum = 0 → ∀ x ∈ l, x.ppw = [] := by
+              intro l
+              induction l with
+              | nil => intro _ x hx; simp at hx
+              | cons a as ih =>
+                intro hs x hx
+                simp only [List.map_cons, List.sum_cons] at hs
+                simp only [List.mem_cons] at hx
+                rcases hx with rfl | hx
+                · exact List.length_eq_zero_iff.mp (by omega)
+                · exact ih (by omega) x hx
+            have hp0 := hall s.ws hlen x hx
+            obtain ⟨j, hj, hget⟩ := List.getElem_of_mem hx
+            rcases hK with hno | hq
+            · have := hno j hj
+              simp [CN, isIdle, getW_eq s j hj, hget, hp0, hcl] at this
+            · apply hnot
+              simp [hq.1, hq.2, hpend]
+        · exact hall
+
+/-- ... equivalently: while one worker has not been closed the run completes normally -/
+theorem C08_survivor (c : Cfg) (hc : Plain c) (pick : List Nat → Option Nat) (hp : PickOK pick) (ht : PickTotal pick)
+    (n : Nat) (src : List Inp) (pre evs : List Ev)
+    (hx : ∃ x ∈ (runEvents c pick (start c pick n src pre) evs).ws, x.closed = false) (part : List Inp) :
+    outcome (runEvents c pick (start c pick n src pre) evs) ≠ .poolError part := by
+  intro h
+  obtain ⟨x, hm, hcl⟩ := hx
+  have := C08_sound c hc pick hp ht n src pre evs part h x hm
+  rw [hcl] at this; cases this
 
 example : outcome (runEvents {} pickFirst (start {} pickFirst 1 [1, 2]) [.die 0 true, .poll [0]]) = .poolError [] := by
   decide +kernel
